@@ -15,7 +15,7 @@ func init() {
 		ID: "C06",
 		Explanation: "Structural invariants of the doubly linked deque decided on SSA store paths: (R1) a head/tail removal resets the new end's back link (new first's Prev / new last's Next ← nil) or, when the list became empty, clears the other end; (R2) insertion links both directions (a.Next ← b together with b.Prev ← a) and maintains both ends, the empty-list test reading the end pointer before it is overwritten; (R3) every insertion path adds exactly 1 to count and every successful removal path subtracts exactly 1, Clear zeroes it with both ends, nobody else writes it; " +
 			"(R4) Shift/Peek report ErrQueueIsEmpty exactly on first == nil and Pop ErrStackIsEmpty exactly on last == nil, returning the node's value otherwise; Poll/Take/Put/Push delegate; (R5) free-list hygiene - a node handed to the GC pool has Val/Prev/Next cleared first, a node taken from the free list has Next/Prev reset, recycling clears Val/Prev and relinks Next to the free list, so a node obtained for insertion never carries stale links. " +
-			"These are the invariants whose violation breaks histories mixing head and tail operations; that every history returns what the ideal deque returns needs the inductive shape invariant and is not decided.",
+			"These are the invariants whose violation breaks histories mixing head and tail operations; that every history returns what the ideal deque returns needs the inductive shape invariant and is not decided. (R6) chain-clearing helpers are only handed chains of the free list, never a node of the live list.",
 		Trusted: append([]string{"sync.Pool.Get returns either a node previously Put (cleared, by R5) or a fresh zero node from New"}, commonTrusted...),
 		Run:     runC06,
 	})
